@@ -143,8 +143,8 @@ pub fn append_zeros<const NI: usize, const NF: usize, const Z: usize, const NFZ:
 /// C16: the same bytes through differently shaped cloneable iterators give the same Number.
 #[derive(Clone)]
 pub struct Cursor<'a> {
-    data: &'a [u8],
-    pos: usize,
+    pub data: &'a [u8],
+    pub pos: usize,
 }
 
 impl<'a> Iterator for Cursor<'a> {
@@ -198,6 +198,37 @@ pub fn iter_filter<const NI: usize, const NF: usize, const NI2: usize>() {
         i += 1;
     }
     let f = verif_parse_number(with.iter().filter(|&&b| b != b'_'), frac.iter(), e);
+    assert!(f == base);
+}
+
+/// (d) empty integer part, Z leading fraction zeros, more than 19 digits: the FRACTION through a cursor, a chain and a
+/// sentinel filter (the zero-skipping and the 20th-digit logic must not depend on the iterator's shape or addresses)
+pub fn iter_fraction<const NF: usize, const Z: usize, const NF2: usize>() {
+    let mut frac: [u8; NF] = any_digits();
+    let mut z = 0;
+    while z < Z && z < NF {
+        frac[z] = b'0';
+        z += 1;
+    }
+    if Z < NF {
+        kani::assume(frac[Z] != b'0');
+    }
+    let e: i32 = kani::any();
+    let empty: [u8; 0] = [];
+    let base = verif_parse_number(empty.iter(), frac.iter(), e);
+    let c = verif_parse_number(empty.iter(), Cursor { data: &frac, pos: 0 }, e);
+    assert!(c == base);
+    let k: usize = NF / 2;
+    let ch = verif_parse_number(empty.iter(), frac[..k].iter().chain(frac[k..].iter()), e);
+    assert!(ch == base);
+    let mut with = [b'_'; NF2];
+    let p: usize = 1;
+    let mut i = 0;
+    while i < NF {
+        with[if i < p { i } else { i + 1 }] = frac[i];
+        i += 1;
+    }
+    let f = verif_parse_number(empty.iter(), with.iter().filter(|&&b| b != b'_'), e);
     assert!(f == base);
 }
 
